@@ -119,7 +119,23 @@ func HarnessC01Message() {
 	cap := vParam("cap", 2)
 	vhRegisterCustom()
 	msg := &Message{Envelope: vhEnvelope("env", cap)}
-	msg.SetContent(vhDoc("doc", vParam("doc", -1), vParam("depth", 1), cap))
+	switch d := vParam("doc", -1); d {
+	case 6:
+		// plain content under an arbitrary media type nobody registered (e.g. application/x-note)
+		t := TextDocument(nondetString("doc.text", cap))
+		msg.Content = &t
+		msg.Type = MediaType{vhMediaPart("mt.type", 3), vhMediaPart("mt.subtype", 3), ""}
+		vAssume(msg.Type.Type != "")
+		vAssume(msg.Type.Subtype != "")
+	case 7:
+		// generic JSON content under an arbitrary unregistered +json type
+		msg.Content = &JsonDocument{"k": nondetString("doc.jv", cap)}
+		msg.Type = MediaType{vhMediaPart("mt.type", 3), vhMediaPart("mt.subtype", 3), "json"}
+		vAssume(msg.Type.Type != "")
+		vAssume(msg.Type.Subtype != "x")
+	default:
+		msg.SetContent(vhDoc("doc", d, vParam("depth", 1), cap))
+	}
 	vReach("c01:message-built")
 
 	b, err := json.Marshal(msg)
@@ -466,6 +482,14 @@ func HarnessC01Request() {
 	if c3.URI != nil {
 		vAssert(c3.URI.String() == path, "c01:request-transport-uri")
 	}
+}
+
+// vhMediaPart: a media type / subtype text (no separators).
+func vhMediaPart(tag string, cap int) string {
+	s := nondetString(tag, cap)
+	vAssume(!vStrHas(s, '/'))
+	vAssume(!vStrHas(s, '+'))
+	return s
 }
 
 func vhURL(p string) *url.URL { return &url.URL{Path: p} }
